@@ -63,10 +63,18 @@ def build(case):
         mods["Main"] = "Main DEFINITIONS AUTOMATIC TAGS ::= BEGIN\n%s\n%s\nEND\n" % ("\n".join(defs), body)
     else:
         imp = ""
-        if refs:
+        if refs and neg != "unimported":
             imp = "IMPORTS %s FROM Lib%s;\n" % (", ".join(names[s] for s in refs), " { iso(1) lib(5) }" if p in ("sibOid", "decoy") else "")
         mods["Main"] = "Main DEFINITIONS AUTOMATIC TAGS ::= BEGIN\n%s%s\nEND\n" % (imp, body)
         mods["Lib"] = "Lib%s DEFINITIONS AUTOMATIC TAGS ::= BEGIN\n%s\nPad ::= BOOLEAN\nEND\n" % (" { iso(1) lib(5) }" if p in ("sibOid", "decoy") else "", "\n".join(defs))
+        if neg == "unimported":
+            mods["Lib"] = "Lib DEFINITIONS AUTOMATIC TAGS ::= BEGIN\n%s\nPad ::= BOOLEAN\nEND\n" % "\n".join(vref(names[s], vals[s]) for s in refs)
+        if p == "rival":
+            # a second importer of the same names with other values, resolved in the same run
+            rimp = "IMPORTS %s FROM RivalLib;\n" % ", ".join(names[s] for s in refs) if refs else ""
+            mods["Rival"] = "Rival DEFINITIONS AUTOMATIC TAGS ::= BEGIN\n%s%s\nEND\n" % (rimp, body)
+            mods["RivalLib"] = "RivalLib DEFINITIONS AUTOMATIC TAGS ::= BEGIN\n%s\nPad ::= BOOLEAN\nEND\n" % "\n".join(
+                vref(names[s], other(vals[s])) for s in refs)
         if p == "decoy":
             mods["Decoy"] = "Lib { iso(1) lib(9) } DEFINITIONS AUTOMATIC TAGS ::= BEGIN\n%s\nPad ::= BOOLEAN\nEND\n" % "\n".join(
                 vref(names[s], other(vals[s])) for s in refs)
